@@ -101,6 +101,7 @@ type StoreRec struct {
 	Guard string
 	Prov  string
 	Pos   string
+	TPos  token.Pos
 }
 
 type Ctx struct {
@@ -148,6 +149,11 @@ type Ctx struct {
 	curResults    []types.Object
 	resTypes      []types.Type
 	panicOK       string
+	onCaseExit    func(c *Ctx, cc *ast.CaseClause, entry, end *State)
+	curPos        token.Pos
+	content       bool
+	aliasStores   []StoreRec
+	nilElemStores []ElemStore
 	qn            int
 	mu            sync.Mutex
 	noDef         bool
@@ -491,7 +497,9 @@ func (c *Ctx) elemSort(t types.Type) string {
 	}
 	return "Int"
 }
-func (c *Ctx) listArrSort(t types.Type) string { return "(Array Int " + c.elemSort(t) + ")" }
+func (c *Ctx) listArrSort(t types.Type) string {
+	return "(Array " + c.idx().smt() + " " + c.elemSort(t) + ")"
+}
 
 const maxLen = int64(1) << 48
 
@@ -1201,6 +1209,16 @@ func (c *Ctx) binary(x *ast.BinaryExpr, st *State) Val {
 	}
 	av := c.eval(x.X, st)
 	bvv := c.eval(x.Y, st)
+	if e, ok := bvv.(ErrV); ok && e.T == "0" {
+		if _, isE := av.(ErrV); !isE {
+			bvv = c.zeroValue(c.info.TypeOf(x.X))
+		}
+	}
+	if e, ok := av.(ErrV); ok && e.T == "0" {
+		if _, isE := bvv.(ErrV); !isE {
+			av = c.zeroValue(c.info.TypeOf(x.Y))
+		}
+	}
 	eq := func(t string) Val {
 		if x.Op == token.NEQ {
 			t = not(t)
